@@ -359,7 +359,7 @@ func Run(r *ev.Run) {
 			}
 		}
 	} else {
-		for i := 0; i < 5200; i++ {
+		for i := 0; i < 26000; i++ {
 			e := envs[rng.Intn(len(envs))]
 			c := clients[rng.Intn(len(clients))]
 			ep := eps[i%len(eps)]
@@ -376,7 +376,7 @@ func Run(r *ev.Run) {
 		}
 	}
 	// embedded whole envelopes (own / other client) at head, middle, tail of a plaintext, and whole envelopes as input
-	nEmbed := r.Pick(900, 9000)
+	nEmbed := r.Pick(4000, 12000)
 	for i := 0; i < nEmbed; i++ {
 		e := envs[rng.Intn(len(envs))]
 		c := clients[rng.Intn(len(clients))]
